@@ -5,11 +5,15 @@ EXTENDS IdbFileHist, Json, CSV, IOUtils
 DumpFile == IF "VERIF_DUMP" \in DOMAIN IOEnv THEN IOEnv.VERIF_DUMP ELSE ""
 
 HRec ==
-  LET all == Append(past, [db |-> db, minor |-> hdr.minor, first |-> FirstOfCurrent])
+  LET all == Append(past, Current(glob.next # FirstOfCurrent))
       asdb == [id |-> temp.id, lib |-> temp.lib, hash |-> temp.hash, mod |-> temp.mod] @@ Tables(glob)
+      F(i) == [db |-> all[i].db, minor |-> all[i].minor, kind |-> all[i].kind]
   IN [hist |-> TRUE, a |-> par.a, pre |-> par.pre,
-      files |-> [i \in 1..Len(all) |-> WriteDb(all[i].db, all[i].minor)],
+      files |-> [i \in 1..Len(all) |-> HistStream(F(i))],
       minors |-> [i \in 1..Len(all) |-> all[i].minor],
+      kinds |-> [i \in 1..Len(all) |-> all[i].kind],
+      defids |-> [i \in 1..Len(all) |-> HistHdr(F(i)).defid],
+      flags |-> FlagsAfter([i \in 1..Len(all) |-> all[i].kind]),
       err |-> err, gnext |-> glob.next, glob |-> Tables(glob), defs |-> HistDefs,
       hdrs |-> [id |-> temp.id, lib |-> temp.lib, hash |-> temp.hash, mod |-> temp.mod],
       rw |-> WriteDb(asdb, 3)]
